@@ -55,7 +55,7 @@ class Current(pd.Series):
         if isinstance(other, Current):
             return Current(self.add(other, fill_value=0))
         else:
-            TypeError("Must be of type Current.")
+            raise TypeError("Must be of type Current.")
 
     # Allow for right addition as well.
     __radd__ = __add__
@@ -69,3 +69,19 @@ class Current(pd.Series):
             Current: self - other
         """
         return Current(self.add(-1 * other, fill_value=0))
+
+    def __mul__(self, other):
+        """ Return Current which is self scaled by the scalar other.
+
+        The result stays a Current, so that scalar multiples can be combined further
+        with + and - (a plain pandas Series would bypass the fill_value=0 alignment).
+
+        Args:
+            other (number): Scalar by which to multiply each coefficient.
+        Returns:
+            Current: other * self
+        """
+        return Current(super().__mul__(other))
+
+    # Scalar multiplication commutes.
+    __rmul__ = __mul__
